@@ -5,7 +5,15 @@ From SDC Require Import Http.Chunk.
 Import ListNotations.
 Open Scope N_scope.
 
-Ltac Zify.zify_post_hook ::= Z.div_mod_to_equations.
+Local Arguments sread : simpl never.
+Local Arguments lenN : simpl never.
+Local Arguments to_hex : simpl never.
+Local Arguments parse_size : simpl never.
+Local Arguments N.sub : simpl never.
+Local Arguments N.eqb : simpl never.
+
+Lemma mod16_lt n : n mod 16 < 16.
+Proof. apply N.mod_lt. lia. Qed.
 
 (* ---------------------------------------------------------------- takeN / dropN *)
 Lemma takeN_dropN {A} : forall (l : list A) n, takeN n l ++ dropN n l = l.
@@ -91,16 +99,16 @@ Lemma from_hex_aux_to_hex_aux : forall fuel n acc a,
 Proof.
   induction fuel as [|f IH]; intros n acc a H; [lia|].
   simpl to_hex_aux. destruct (n <? 16) eqn:E.
-  - exists 1. simpl. rewrite hex_value_digit by lia.
-    f_equal. rewrite N.pow_1_r. lia.
+  - exists 1. cbn [from_hex_aux]. rewrite hex_value_digit by apply mod16_lt.
+    f_equal. rewrite N.pow_1_r. rewrite N.mod_small by lia. lia.
   - assert (Hn : 16 <= n) by lia.
     assert (Hl : N.log2 (n / 16) < N.of_nat f).
     { change 16 with (2 ^ 4). rewrite <- N.shiftr_div_pow2, N.log2_shiftr.
       assert (4 <= N.log2 n) by (apply N.log2_le_pow2; simpl; lia). lia. }
     destruct (IH (n / 16) (hex_digit (n mod 16) :: acc) a Hl) as [k Hk].
-    exists (k + 1). rewrite Hk. simpl from_hex_aux.
-    rewrite hex_value_digit by lia. f_equal.
-    rewrite N.pow_add_r, N.pow_1_r. lia.
+    exists (k + 1). rewrite Hk. cbn [from_hex_aux].
+    rewrite hex_value_digit by apply mod16_lt. f_equal.
+    rewrite N.pow_add_r, N.pow_1_r. pose proof (N.div_mod n 16 ltac:(lia)). lia.
 Qed.
 
 Lemma to_hex_aux_nonempty : forall fuel n acc, fuel <> O -> to_hex_aux fuel n acc <> [].
@@ -115,7 +123,7 @@ Lemma to_hex_aux_hex : forall fuel n acc,
 Proof.
   induction fuel as [|f IH]; intros n acc H; simpl; [assumption|].
   assert (Forall (fun c => is_hexb c = true) (hex_digit (n mod 16) :: acc)).
-  { constructor; [apply is_hexb_digit; lia | assumption]. }
+  { constructor; [apply is_hexb_digit; apply mod16_lt | assumption]. }
   destruct (n <? 16); [assumption | now apply IH].
 Qed.
 
@@ -151,7 +159,7 @@ Qed.
 Lemma to_hex_length n k : (1 <= k)%nat -> n < 16 ^ N.of_nat k -> (length (to_hex n) <= k)%nat.
 Proof.
   intros Hk H. pose proof (to_hex_aux_length (S (N.to_nat (N.log2 n))) n [] k Hk H) as L.
-  simpl length in L. unfold to_hex. lia.
+  unfold to_hex. simpl in L. rewrite Nat.add_0_r in L. exact L.
 Qed.
 
 (* strings that from_hex accepts consist of hex digits only *)
@@ -227,6 +235,14 @@ Proof. reflexivity. Qed.
 Lemma sread_uncapped_app a b : sread (lenN a) (uncapped (a ++ b)) = (a, uncapped b).
 Proof. rewrite sread_uncapped, takeN_app_exact, dropN_app_exact. reflexivity. Qed.
 
+Lemma sread1_uncapped_cons x l : sread 1 (uncapped (x :: l)) = ([x], uncapped l).
+Proof. unfold sread, uncapped. simpl. rewrite takeN_0, dropN_0. reflexivity. Qed.
+
+Lemma sread_empty n caps : sread n (mkS [] caps) = ([], mkS [] (tl caps)).
+Proof. unfold sread. simpl. reflexivity. Qed.
+
+Opaque sread.
+
 (* ---------------------------------------------------------------- read_until *)
 (* soundness: what was consumed is the returned line followed by CRLF *)
 Lemma read_until_sound : forall k rbuf s h s1,
@@ -249,7 +265,7 @@ Proof.
       rewrite <- app_assoc. reflexivity.
     + apply IH in H. destruct H as [cons [H1 H2]]. exists (b :: cons). split.
       * rewrite Hd, H1. reflexivity.
-      * simpl in H2. rewrite <- app_assoc in H2. simpl in H2. simpl. rewrite <- app_assoc. exact H2.
+      * simpl rev in *. rewrite <- H2. rewrite <- !app_assoc. reflexivity.
 Qed.
 
 (* completeness on an uncapped stream: a line without LF, followed by CRLF, within k bytes *)
@@ -259,14 +275,15 @@ Lemma read_until_line : forall pre k rbuf rest,
 Proof.
   induction pre as [|c pre IH]; intros k rbuf rest Hp Hk.
   - destruct k as [|[|k]]; try (simpl in Hk; lia). simpl app.
-    unfold crlf. simpl read_until.
-    destruct rbuf as [|p r]; simpl.
-    + rewrite app_nil_r. reflexivity.
+    unfold crlf. cbn [read_until]. rewrite !sread1_uncapped_cons.
+    destruct rbuf as [|p r].
+    + reflexivity.
     + replace ((13 =? 10) && (p =? 13)) with false by reflexivity.
-      simpl. rewrite app_nil_r. reflexivity.
+      replace ((10 =? 10) && (13 =? 13)) with true by reflexivity.
+      rewrite app_nil_r. reflexivity.
   - destruct k as [|k]; [simpl in Hk; lia|].
-    inversion Hp; subst. simpl app. simpl read_until.
-    change (mkS (pre ++ crlf ++ rest) []) with (uncapped (pre ++ crlf ++ rest)).
+    inversion Hp; subst. simpl app. cbn [read_until]. rewrite sread1_uncapped_cons.
+    change (pre ++ 13 :: 10 :: rest) with (pre ++ crlf ++ rest).
     destruct rbuf as [|p r].
     + rewrite IH by (auto; simpl in Hk; lia). reflexivity.
     + replace ((c =? 10) && (p =? 13)) with false by lia.
@@ -290,7 +307,7 @@ Proof.
     inversion H; subst; clear H.
     apply IH in Er. destruct Er as [H1 H2]. split.
     + rewrite Hd, H1. now rewrite app_assoc.
-    + rewrite lenN_app, H2. lia.
+    + change (b :: c ++ d1) with ((b :: c) ++ d1). rewrite lenN_app, H2. lia.
 Qed.
 
 Lemma read_n_uncapped_exact : forall fuel d rest,
@@ -325,7 +342,7 @@ Lemma read_n_found_spins : forall fuel n caps, 0 < n -> read_n_found fuel n (mkS
 Proof.
   induction fuel as [|f IH]; intros n caps H; [reflexivity|].
   simpl. replace (n =? 0) with false by lia.
-  unfold sread. simpl. rewrite lenN_nil, N.sub_0_r.
+  rewrite sread_empty, lenN_nil, N.sub_0_r.
   rewrite IH by assumption. reflexivity.
 Qed.
 
@@ -357,12 +374,13 @@ Lemma mk_chunks_aux_chunked : forall fuel n tail m,
   chunked m (mk_chunks_aux fuel n tail) tail.
 Proof.
   induction fuel as [|f IH]; intros n tail m Hf Hn Hm Hb; [lia|].
-  simpl mk_chunks_aux.
+  cbn [mk_chunks_aux].
   destruct (takeN n tail) as [|x hd] eqn:Eh.
-  - apply takeN_nil_inv in Eh; [|lia]. subst tail. simpl.
-    rewrite app_nil_r. apply ch_last; [apply from_hex_to_hex|].
-    apply to_hex_length; [lia|]. apply N.pow_nonzero with (b := N.of_nat m) in Hn as Hz.
-    2:{ lia. } assert (0 < 16 ^ N.of_nat m) by (apply N.neq_0_lt_0; apply N.pow_nonzero; lia). lia.
+  - apply takeN_nil_inv in Eh; [|lia]. subst tail.
+    change (to_hex (lenN []) ++ crlf ++ [] ++ crlf ++ []) with (to_hex 0 ++ crlf ++ crlf).
+    apply ch_last; [apply from_hex_to_hex|].
+    apply to_hex_length; [lia|].
+    apply N.neq_0_lt_0. apply N.pow_nonzero. lia.
   - pose proof (takeN_dropN tail n) as Hsplit. rewrite Eh in Hsplit.
     pose proof (lenN_takeN tail n) as Hl. rewrite Eh in Hl.
     rewrite <- Hsplit at 2.
@@ -381,6 +399,54 @@ Lemma mk_chunks_chunked n body m :
   1 <= n -> (1 <= m)%nat -> N.min n (lenN body) < 16 ^ N.of_nat m -> chunked m (mk_chunks n body) body.
 Proof. intros. apply mk_chunks_aux_chunked; auto. Qed.
 
+Lemma bytes_eqb_eq : forall a b, bytes_eqb a b = true -> a = b.
+Proof.
+  induction a as [|x a IH]; intros [|y b] H; simpl in H; try discriminate; [reflexivity|].
+  apply andb_prop in H as [H1 H2]. apply N.eqb_eq in H1. subst. f_equal. now apply IH.
+Qed.
+
+Lemma bytes_eqb_refl : forall a, bytes_eqb a a = true.
+Proof. induction a as [|x a IH]; simpl; [reflexivity|]. now rewrite N.eqb_refl, IH. Qed.
+
+(* unfolding equations (rewriting with them leaves the arguments untouched) *)
+Lemma dechunk_gen_S hmax rn f s :
+  dechunk_gen hmax rn (S f) s =
+  match read_until hmax [] s with
+  | (None, s1) => DErr EHeader s1
+  | (Some h, s1) =>
+      match parse_size h with
+      | None => DErr ESize s1
+      | Some n =>
+          match rn f n s1 with
+          | NFuel => DFuel
+          | NEof s2 => DErr EEofInChunk s2
+          | NData d s2 =>
+              let '(c, s3) := sread 2 s2 in
+              if bytes_eqb c crlf then
+                if n =? 0 then DOk d s3
+                else match dechunk_gen hmax rn f s3 with
+                     | DOk b s4 => DOk (d ++ b) s4
+                     | r => r
+                     end
+              else DErr ECrLf s3
+          end
+      end
+  end.
+Proof. reflexivity. Qed.
+
+Lemma read_n_S f n s :
+  read_n (S f) n s =
+  if n =? 0 then NData [] s
+  else let '(c, s') := sread n s in
+       match c with
+       | [] => NEof s'
+       | _ => match read_n f (n - lenN c) s' with
+              | NData d s'' => NData (c ++ d) s''
+              | r => r
+              end
+       end.
+Proof. reflexivity. Qed.
+
 (* ---------------------------------------------------------------- decoder completeness *)
 Lemma dechunk_complete hmax : forall w b, chunked (hmax - 2) w b ->
   forall rest fuel, (2 <= hmax)%nat -> (length w < fuel)%nat ->
@@ -388,23 +454,23 @@ Lemma dechunk_complete hmax : forall w b, chunked (hmax - 2) w b ->
 Proof.
   induction 1 as [h Hh Hl | h d w b Hh Hd Hl Hw IH]; intros rest fuel Hm Hf.
   - destruct fuel as [|f]; [lia|].
-    unfold dechunk. simpl dechunk_gen. rewrite <- !app_assoc.
+    unfold dechunk. rewrite dechunk_gen_S. rewrite <- !app_assoc.
     destruct (from_hex_hex _ _ Hh) as [Hhex _].
-    rewrite read_until_line by (auto using hex_no_lf; lia). simpl rev. simpl app at 1.
+    rewrite read_until_line by (auto using hex_no_lf; lia). cbn [rev app].
     rewrite (parse_size_hex _ _ Hh).
-    rewrite !app_length in Hf. simpl in Hf.
-    destruct f as [|f]; [lia|]. simpl read_n.
-    change (sread 2 (uncapped (crlf ++ rest))) with (sread (lenN crlf) (uncapped (crlf ++ rest))).
+    rewrite !app_length in Hf. simpl length in Hf.
+    destruct f as [|f]; [lia|]. rewrite read_n_S. rewrite N.eqb_refl.
+    change 2 with (lenN crlf).
     rewrite sread_uncapped_app. reflexivity.
   - destruct fuel as [|f]; [lia|].
-    unfold dechunk. simpl dechunk_gen. rewrite <- !app_assoc.
+    unfold dechunk. rewrite dechunk_gen_S. rewrite <- !app_assoc.
     destruct (from_hex_hex _ _ Hh) as [Hhex _].
-    rewrite read_until_line by (auto using hex_no_lf; lia). simpl rev. simpl app at 1.
+    rewrite read_until_line by (auto using hex_no_lf; lia). cbn [rev app].
     rewrite (parse_size_hex _ _ Hh).
-    rewrite !app_length in Hf. simpl in Hf.
+    rewrite !app_length in Hf. simpl length in Hf.
     rewrite read_n_uncapped_exact by lia.
-    change (sread 2 (uncapped (crlf ++ w ++ rest))) with (sread (lenN crlf) (uncapped (crlf ++ w ++ rest))).
-    rewrite sread_uncapped_app. simpl bytes_eqb.
+    change 2 with (lenN crlf).
+    rewrite sread_uncapped_app. rewrite bytes_eqb_refl.
     destruct (lenN d =? 0) eqn:E.
     { destruct d; [congruence|]. rewrite lenN_cons in E. lia. }
     fold (dechunk hmax f (uncapped (w ++ rest))).
@@ -422,21 +488,12 @@ Proof.
 Qed.
 
 (* ---------------------------------------------------------------- decoder soundness (no over-read) *)
-Lemma bytes_eqb_eq : forall a b, bytes_eqb a b = true -> a = b.
-Proof.
-  induction a as [|x a IH]; intros [|y b] H; simpl in H; try discriminate; [reflexivity|].
-  apply andb_prop in H as [H1 H2]. apply N.eqb_eq in H1. subst. f_equal. now apply IH.
-Qed.
-
-Lemma bytes_eqb_refl : forall a, bytes_eqb a a = true.
-Proof. induction a as [|x a IH]; simpl; [reflexivity|]. now rewrite N.eqb_refl, IH. Qed.
-
 Lemma dechunk_sound hmax : forall fuel s b s',
   dechunk hmax fuel s = DOk b s' ->
   exists w, sdata s = w ++ sdata s' /\ chunked_any w b.
 Proof.
   induction fuel as [|f IH]; intros s b s' H; [discriminate|].
-  unfold dechunk in H. simpl dechunk_gen in H.
+  unfold dechunk in H. rewrite dechunk_gen_S in H.
   destruct (read_until hmax [] s) as [[h|] s1] eqn:Eu; [|discriminate].
   destruct (read_until_sound _ _ _ _ _ Eu) as [cons [Hc1 Hc2]]. simpl in Hc2. subst cons.
   destruct (parse_size h) as [n|] eqn:Ep; [|discriminate].
@@ -447,18 +504,21 @@ Proof.
   destruct (bytes_eqb c crlf) eqn:Ec; [|discriminate].
   apply bytes_eqb_eq in Ec. subst c.
   destruct (n =? 0) eqn:En.
-  - inversion H; subst; clear H.
-    assert (d = []) as ->. { destruct d; [reflexivity|]. rewrite lenN_cons in En. lia. }
+  - injection H as Hb Hs'. subst b s'.
+    assert (Dn : d = []). { destruct d; [reflexivity|]. rewrite lenN_cons in Hd2. lia. }
+    subst d.
     exists (h ++ crlf ++ crlf). split.
     + rewrite Hc1, Hd1, Hs1. simpl. now rewrite <- !app_assoc.
-    + apply ca_last. rewrite Ep. f_equal. rewrite lenN_nil in En. lia.
+    + apply ca_last. rewrite Ep. f_equal. lia.
   - fold (dechunk hmax f s3) in H.
     destruct (dechunk hmax f s3) as [b1 s4| |] eqn:Ed; try discriminate.
-    inversion H; subst; clear H.
+    injection H as Hb Hs'. subst b s'.
     destruct (IH _ _ _ Ed) as [w [Hw1 Hw2]].
     exists (h ++ crlf ++ d ++ crlf ++ w). split.
     + rewrite Hc1, Hd1, Hs1, Hw1. now rewrite <- !app_assoc.
-    + apply ca_cons; auto. intros ->. rewrite lenN_nil in En. lia.
+    + apply ca_cons; auto.
+      * rewrite Ep. f_equal. lia.
+      * intros ->. rewrite lenN_nil in Hd2. lia.
 Qed.
 
 (* ---------------------------------------------------------------- termination *)
@@ -491,7 +551,7 @@ Lemma dechunk_terminates hmax : forall fuel s,
   (length (sdata s) < fuel)%nat -> dechunk hmax fuel s <> DFuel.
 Proof.
   induction fuel as [|f IH]; intros s H; [lia|].
-  unfold dechunk. simpl dechunk_gen.
+  unfold dechunk. rewrite dechunk_gen_S.
   destruct (read_until hmax [] s) as [[h|] s1] eqn:Eu; [|discriminate].
   apply read_until_some_shrinks in Eu.
   destruct (parse_size h) as [n|]; [|discriminate].
@@ -508,15 +568,28 @@ Proof.
   specialize (IH s3 Hlt). destruct (dechunk hmax f s3); congruence.
 Qed.
 
-Lemma dechunk_found_spins hmax : (5 <= hmax)%nat ->
+Lemma read_n_found_S f n s :
+  read_n_found (S f) n s =
+  if n =? 0 then NData [] s
+  else let '(c, s') := sread n s in
+       match read_n_found f (n - lenN c) s' with
+       | NData d s'' => NData (c ++ d) s''
+       | r => r
+       end.
+Proof. reflexivity. Qed.
+
+Lemma dechunk_found_spins hmax : (3 <= hmax)%nat ->
   forall fuel, dechunk_found hmax fuel (uncapped [53; 13; 10; 97; 98; 99]) = DFuel.
 Proof.
   intros Hm fuel. destruct fuel as [|f]; [reflexivity|].
-  unfold dechunk_found. simpl dechunk_gen.
-  do 5 (destruct hmax as [|hmax]; [lia|]). simpl read_until.
-  change (parse_size [53]) with (Some 5). cbv iota beta.
+  unfold dechunk_found. rewrite dechunk_gen_S.
+  change [53; 13; 10; 97; 98; 99] with ([53] ++ crlf ++ [97; 98; 99]).
+  rewrite read_until_line; [|repeat constructor; discriminate|simpl; lia].
+  change (parse_size (rev [] ++ [53])) with (Some 5).
   destruct f as [|f]; [reflexivity|].
-  simpl read_n_found. unfold sread at 1. simpl.
+  rewrite read_n_found_S. change (5 =? 0) with false. cbv iota.
+  rewrite sread_uncapped. change (takeN 5 [97; 98; 99]) with [97; 98; 99].
+  change (dropN 5 [97; 98; 99]) with (@nil N). unfold uncapped.
   rewrite read_n_found_spins by (vm_compute; reflexivity). reflexivity.
 Qed.
 
@@ -588,7 +661,7 @@ Proof.
   unfold read_request_body, decode_step. rewrite He, M.
   destruct (h_chunked h).
   - destruct (dechunk hmax fuel s); exact I.
-  - destruct (h_cl h); try exact I. destruct (sread n s); exact I.
+  - destruct (h_cl h) as [|n| |]; try exact I; try (destruct (sread n s); exact I).
 Qed.
 
 Lemma unsupported_rejected_response avail h s enc :
@@ -601,7 +674,7 @@ Proof.
   intros He Hn. assert (M : mem_bytes enc avail = false).
   { destruct (mem_bytes enc avail) eqn:E; [apply mem_bytes_In in E; contradiction|reflexivity]. }
   unfold read_response_body, decode_step. rewrite He, M.
-  destruct (h_cl h); try exact I. destruct (sread n s); exact I.
+  destruct (h_cl h) as [|n| |]; try exact I; try (destruct (sread n s); exact I).
 Qed.
 
 (* a coding is only ever decoded with the decoder named in the header, and only if available *)
@@ -616,5 +689,7 @@ Proof.
     destruct (mem_bytes e avail) eqn:M; [|discriminate]. inversion E; subst. split; [reflexivity|]. now apply mem_bytes_In. }
   destruct (h_chunked h).
   - destruct (dechunk hmax fuel s); try discriminate. eauto.
-  - destruct (h_cl h); try discriminate; eauto. destruct (sread n s). eauto.
+  - destruct (h_cl h) as [|n| |]; try discriminate; eauto. destruct (sread n s). eauto.
 Qed.
+
+Transparent sread.
